@@ -266,3 +266,15 @@ Proof.
   unfold graph_index, is_edge, is_node, valid_index, so_index_ok, cg_as_u64. intros G Hcap.
   destruct (id <? 0); [lia|]. destruct (0 <? id); [lia|discriminate].
 Qed.
+
+Theorem wf_edge_side_conditions g :
+  wf g -> capacity g < 1152921504606846976 ->
+    (forall f t, 0 < f -> 0 < t -> is_node g f = true -> is_node g t = true -> so_edge_ok g f t) /\
+    (forall e, e < 0 -> so_remove_edge_ok g e) /\
+    so_index_ok (cg_as_u64 (fst (insert_node g))) /\ so_index_ok (cg_as_u64 (- fst (get_free_index g))) /\
+    (forall id, graph_index g id = true -> so_index_ok (cg_as_u64 id)).
+Proof.
+  intros W Hcap. split; [intros f t; apply wf_so_edge_ok; assumption|]. split; [intros e; apply wf_so_remove_edge_ok; assumption|].
+  split; [apply wf_new_ids_ok; assumption|]. split; [apply wf_new_ids_ok; assumption|].
+  intros id G. eapply graph_index_ok; eassumption.
+Qed.
